@@ -743,6 +743,9 @@ class DLC(utils.EventEmitter):
         if self.disconnection_result:
             self.disconnection_result.cancel()
             self.disconnection_result = None
+        # Nothing more will be sent: release whoever is waiting in drain()
+        self.tx_buffer = b''
+        self.drained.set()
         self.change_state(DLC.State.RESET)
         self.emit(self.EVENT_CLOSE)
 
@@ -1023,6 +1026,9 @@ class Multiplexer(utils.EventEmitter):
 
     def on_l2cap_channel_close(self) -> None:
         logger.debug('L2CAP channel closed, cleaning up')
+        if self.connection_result:
+            self.connection_result.cancel()
+            self.connection_result = None
         if self.open_result:
             self.open_result.cancel()
             self.open_result = None
